@@ -33,3 +33,30 @@ def admissionOps (t : List String) : Option String :=
   | _ => none
 
 end Bridge.Driver
+
+namespace Bridge.Driver
+open Bridge.Admission in
+def showAdmOp : Bridge.Admission.Op → String
+  | .recv => "r" | .send t => "s:" ++ hexOf t | .close => "c" | .signal => "g"
+def showMainOp : Bridge.Admission.MainOp → String
+  | .accept => "accept" | .start => "start" | .waitVerdict => "wait" | .sleep => "sleep" | .isAlive => "alive"
+  | .clearVerdict => "clear"
+
+def connArg? (c : String) : Option (List Char × List Char) :=
+  match c.splitOn ":" with
+  | [a, b] => (unhex? a).bind fun a => (unhex? b).map fun b => (a, b)
+  | _ => none
+
+/-- `G.loop <req-text-hex>:<next-client-text-hex>;…` : the accept loop on the connection attempts in accept order -/
+def admissionLoopOps (t : List String) : Option String :=
+  match t with
+  | ["G.loop", conns] => do
+    let cs ← if conns = "-" then some [] else (conns.splitOn ";").mapM connArg?
+    match Bridge.Admission.acceptLoopR Table.empty cs with
+    | none => pure "RAISES"
+    | some (opss, mops, tf) =>
+      let cell (p : Seat) := match tf p with | some n => hexOf n | none => "none"
+      pure (s!"threads={"|".intercalate (opss.map fun ops => ",".intercalate (ops.map showAdmOp))} " ++
+            s!"main={",".intercalate (mops.map showMainOp)} table=N:{cell .N},E:{cell .E},S:{cell .S},W:{cell .W}")
+  | _ => none
+end Bridge.Driver
